@@ -914,3 +914,545 @@ func specScope(p *core.Prog) map[*ssa.Function]bool {
 	}
 	return scope
 }
+
+// RAW-ANALYZER — the spec validator keeps two views of the document: the analyzer of the document as written
+// (field `analyzer`, references intact) and the analyzer of the expanded document (expandedAnalyzer()). Rules
+// about parameters, operations, paths, security and definitions quantify over the *expanded* view — a parameter
+// behind a $ref is otherwise invisible to them — while only the enumeration of references themselves needs the
+// unexpanded view (after expansion there are none left). Every use of the raw field must therefore be one of:
+//   - the store in Validate and the fallback inside the expanded-analyzer accessor,
+//   - the receiver of a reference-enumerating method (All…References, AllRefs, …),
+//   - a reviewed exception, by function, with its reason.
+// Anything else (e.g. validateParameters ranging over s.analyzer.Operations()) skips every rule instance that
+// only exists after $ref resolution.
+var rawAnalyzerReviewed = map[string]string{
+	"(*SpecValidator).validateItems": "items/array checks on parameters and headers as written; $ref'd parameters are checked where they are declared (shared parameters are walked by the same function)",
+}
+
+func RawAnalyzer(p *core.Prog, r *core.Report) {
+	const rule = "RAW-ANALYZER"
+	var sv *types.Named
+	if o := p.Main.Pkg.Scope().Lookup("SpecValidator"); o != nil {
+		sv, _ = o.Type().(*types.Named)
+	}
+	if sv == nil {
+		r.Unk(rule, "type", "-", "SpecValidator not found")
+		return
+	}
+	st := sv.Underlying().(*types.Struct)
+	// the raw analyzer field: the field of analyzer type that Validate stores the fresh analysis into
+	// and that is not the expanded one: resolved as the field the expanded accessor falls back to
+	acc := p.Func("(*SpecValidator).expandedAnalyzer")
+	if acc == nil {
+		r.Unk(rule, "accessor", "-", "(*SpecValidator).expandedAnalyzer not found")
+		return
+	}
+	fields := map[int]bool{}
+	for k := 0; k < st.NumFields(); k++ {
+		if n := core.NamedOf(st.Field(k).Type()); n != nil && n.Obj().Name() == "Spec" && n.Obj().Pkg() != nil && strings.HasSuffix(n.Obj().Pkg().Path(), "/analysis") {
+			fields[k] = true
+		}
+	}
+	// the expanded view lives behind the expanded document (expandedAnalyzer()); the only field of analyzer
+	// type on the validator itself is the raw one
+	rawIdx := -1
+	if len(fields) == 1 {
+		for k := range fields {
+			rawIdx = k
+		}
+	}
+	if rawIdx < 0 {
+		r.Unk(rule, "fields", p.Pos(acc.Pos()), "cannot tell the raw analyzer field from the expanded one")
+		return
+	}
+	rawName := st.Field(rawIdx).Name()
+	n := 0
+	for _, f := range p.Funcs {
+		top := core.EnclosingTop(f)
+		core.EachInstr(f, func(i ssa.Instruction) {
+			fa, ok := i.(*ssa.FieldAddr)
+			if !ok || fa.Field != rawIdx {
+				return
+			}
+			if n := core.NamedOf(fa.X.Type()); n == nil || n.Obj() != sv.Obj() {
+				return
+			}
+			for _, ref := range core.Refs(fa) {
+				if s, ok := ref.(*ssa.Store); ok && s.Addr == ssa.Value(fa) {
+					continue // (re)initialisation
+				}
+				ld, ok := ref.(*ssa.UnOp)
+				if !ok {
+					r.Unk(rule, core.FuncName(top)+":addr", p.Pos(fa.Pos()), "the address of the raw analyzer field escapes")
+					continue
+				}
+				for _, use := range core.Refs(ld) {
+					n++
+					key := core.FuncName(top) + ":" + rawName
+					pos := p.Pos(use.Pos())
+					switch u := use.(type) {
+					case *ssa.Call:
+						g := core.StaticCallee(u)
+						if g != nil && len(u.Call.Args) > 0 && u.Call.Args[0] == ssa.Value(ld) && g.Signature.Recv() != nil {
+							key += "." + g.Name()
+							switch {
+							case strings.Contains(g.Name(), "Ref"):
+								r.OK(rule, key, pos, "reference enumeration on the document as written")
+							case rawAnalyzerReviewed[core.FuncName(top)] != "":
+								r.OK(rule, key, pos, "reviewed: "+rawAnalyzerReviewed[core.FuncName(top)])
+							default:
+								r.Bad(rule, key, pos, fmt.Sprintf("%s calls %s on the analyzer of the document as written: parameters, responses and schemas that are only reachable through a $ref are invisible to this rule; use the expanded analyzer", core.FuncName(top), g.Name()))
+							}
+							continue
+						}
+						r.Unk(rule, key+":arg", pos, "the raw analyzer is passed on; its uses there are not followed")
+					case *ssa.Return, *ssa.Phi, *ssa.Store:
+						if top == acc {
+							r.OK(rule, key+":fallback", pos, "fallback of the expanded-analyzer accessor (before expansion has run)")
+						} else if noExpansionAt(ld.Block()) {
+							r.OK(rule, key+":fallback", pos, "fallback taken only when there is no expanded document")
+						} else {
+							r.Unk(rule, key+":flow", pos, "the raw analyzer flows somewhere that is not followed")
+						}
+					case *ssa.BinOp, *ssa.If:
+						r.OK(rule, key+":niltest", pos, "nil test")
+					case *ssa.DebugRef:
+						n--
+					default:
+						r.Unk(rule, key+":use", pos, fmt.Sprintf("unrecognised use of the raw analyzer (%T)", use))
+					}
+				}
+			}
+		})
+	}
+	r.Count("raw_analyzer_uses", n)
+	r.Floor("raw_analyzer_uses", 6)
+}
+
+// noExpansionAt: block b only runs when the validator's expanded document is nil.
+func noExpansionAt(b *ssa.BasicBlock) bool {
+	for _, c := range core.CondsAt(b) {
+		bo, ok := c.Value.(*ssa.BinOp)
+		if !ok {
+			continue
+		}
+		var x ssa.Value
+		if core.IsNilConst(bo.Y) {
+			x = bo.X
+		} else if core.IsNilConst(bo.X) {
+			x = bo.Y
+		}
+		if x == nil {
+			continue
+		}
+		pth, ok := core.Path(x)
+		if !ok || !strings.HasSuffix(pth, ".expanded") {
+			continue
+		}
+		if (bo.Op == token.EQL && c.Sense) || (bo.Op == token.NEQ && !c.Sense) {
+			return true
+		}
+	}
+	return false
+}
+
+// EXPAND-ROOT — every resolution or expansion request made to go-openapi/spec (a callee with a parameter named
+// `root`) is given the document it must resolve against: the validator's own document (….Spec()) or the root the
+// enclosing function itself received. A nil or foreign root makes every local reference (#/definitions/X)
+// resolve against the fragment alone: the request fails, and whatever was going to be checked after it (the
+// default or example of a definition whose schema has a resolvable $ref) is silently skipped.
+func ExpandRoot(p *core.Prog, r *core.Report) {
+	const rule = "EXPAND-ROOT"
+	n := 0
+	seq := map[string]int{}
+	for _, f := range p.Funcs {
+		core.EachInstr(f, func(i ssa.Instruction) {
+			c, ok := i.(ssa.CallInstruction)
+			if !ok {
+				return
+			}
+			g := core.StaticCallee(c)
+			if g == nil || g.Pkg == nil || !strings.HasSuffix(g.Pkg.Pkg.Path(), "go-openapi/spec") {
+				return
+			}
+			sig := g.Signature
+			idx := -1
+			for k := 0; k < sig.Params().Len(); k++ {
+				if sig.Params().At(k).Name() == "root" {
+					idx = k
+				}
+			}
+			if idx < 0 || idx >= len(c.Common().Args) {
+				return
+			}
+			n++
+			base := core.FuncName(core.EnclosingTop(f)) + ":" + g.Name()
+			seq[base]++
+			key := base
+			if seq[base] > 1 {
+				key = fmt.Sprintf("%s#%d", base, seq[base])
+			}
+			arg := c.Common().Args[idx]
+			for {
+				if mi, ok := arg.(*ssa.MakeInterface); ok {
+					arg = mi.X
+					continue
+				}
+				if ct, ok := arg.(*ssa.ChangeInterface); ok {
+					arg = ct.X
+					continue
+				}
+				break
+			}
+			pos := p.Pos(c.Pos())
+			switch a := arg.(type) {
+			case *ssa.Const:
+				r.Bad(rule, key, pos, fmt.Sprintf("%s is asked to resolve without a root document (root = %s): local references resolve against the fragment alone and fail, so what depends on the answer is skipped or misreported", g.Name(), a.Name()))
+			case *ssa.Parameter:
+				r.OK(rule, key, pos, "resolves against the root the enclosing function was given ("+a.Name()+")")
+			case *ssa.Phi:
+				// `if root == nil { root = schema }`: every alternative is something the function received
+				all := true
+				for _, e := range a.Edges {
+					for {
+						if mi, ok := e.(*ssa.MakeInterface); ok {
+							e = mi.X
+							continue
+						}
+						break
+					}
+					if _, isP := e.(*ssa.Parameter); !isP {
+						all = false
+					}
+				}
+				if all {
+					r.OK(rule, key, pos, "resolves against the root the enclosing function was given, or against the schema itself when none was given")
+				} else {
+					r.Unk(rule, key, pos, "the root argument is a join of values that are not all received by the function")
+				}
+			case *ssa.Call:
+				h := core.StaticCallee(a)
+				if h != nil && h.Name() == "Spec" && h.Signature.Recv() != nil && strings.HasSuffix(h.Signature.Recv().Type().String(), "loads.Document") {
+					if pth, ok := core.StablePath(a.Call.Args[0]); ok && strings.HasSuffix(pth, ".spec") {
+						r.OK(rule, key, pos, "resolves against the validator's own document ("+pth+".Spec())")
+						return
+					}
+				}
+				r.Unk(rule, key, pos, "the root comes from a call that is not the validator's document accessor")
+			default:
+				if pth, ok := core.StablePath(arg); ok {
+					r.Unk(rule, key, pos, "the root is "+pth+": not recognised as the validator's document")
+				} else {
+					r.Unk(rule, key, pos, "the root argument is not recognised")
+				}
+			}
+		})
+	}
+	r.Count("root_resolution_calls", n)
+	r.Floor("root_resolution_calls", 5)
+}
+
+// CLONE-FAITHFUL — spec validation works on private copies of schemas (the swagger `parameter` definition, every
+// definition walked for defaults and examples, the resolvability probe). A copy made with encoding/gob is not the
+// schema: gob flattens pointers and omits zero values, so a *float64/*int64 bound that points to 0
+// ("minimum": 0, "maxLength": 0, "maxItems": 0) and a pointer to an all-zero struct ("additionalProperties":
+// false) come back nil, and the copy accepts values the schema as written rejects. Every value handed to a gob
+// encoder in the subject packages must therefore have a type without such presence pointers.
+func CloneFaithful(p *core.Prog, r *core.Report) {
+	const rule = "CLONE-FAITHFUL"
+	nClone := 0
+	for _, f := range p.Funcs {
+		core.EachInstr(f, func(i ssa.Instruction) {
+			c, ok := i.(ssa.CallInstruction)
+			if !ok {
+				return
+			}
+			g := core.StaticCallee(c)
+			if g == nil {
+				return
+			}
+			if core.QualName(g) != "(*gob.Encoder).Encode" || len(c.Common().Args) < 2 {
+				return
+			}
+			nClone++
+			arg := c.Common().Args[1]
+			if mi, ok := arg.(*ssa.MakeInterface); ok {
+				arg = mi.X
+			}
+			key := core.FuncName(core.EnclosingTop(f)) + ":gob"
+			if where := presencePointer(arg.Type(), map[types.Type]bool{}, 0, ""); where != "" {
+				r.Bad(rule, key, p.Pos(c.Pos()), fmt.Sprintf("a value of type %s is copied through encoding/gob, which drops pointers to zero values: %s comes back nil when it points to 0/false — a copy of a schema with \"minimum\": 0, \"maxLength\": 0 or \"additionalProperties\": false no longer enforces that keyword", arg.Type().String(), where))
+			} else {
+				r.OK(rule, key, p.Pos(c.Pos()), "the encoded type has no pointer whose zero pointee is meaningful")
+			}
+		})
+	}
+	// the copy functions themselves: a function from schema to schema used by the walkers must exist and be
+	// analysed (a copy that is no copy at all is INPUT-RO's and SHARED-REACH's business)
+	clone := p.Func("deepCloneSchema")
+	if clone == nil {
+		r.Unk(rule, "clone", "-", "deepCloneSchema not found: how spec validation copies schemas is not known")
+		return
+	}
+	usesJSON := false
+	core.EachInstr(clone, func(i ssa.Instruction) {
+		if c, ok := i.(ssa.CallInstruction); ok {
+			if g := core.StaticCallee(c); g != nil && (core.QualName(g) == "json.Marshal" || core.QualName(g) == "json.Unmarshal") {
+				usesJSON = true
+			}
+		}
+	})
+	if usesJSON || nClone == 0 {
+		r.OK(rule, "clone:encoding", p.Pos(clone.Pos()), "schemas are copied with an encoding that keeps pointers to zero values (the schema's own JSON form)")
+	}
+	r.Count("gob_encodes", nClone)
+}
+
+// presencePointer finds a field path to a pointer whose pointee may be meaningfully zero (basic type or struct).
+func presencePointer(t types.Type, seen map[types.Type]bool, d int, path string) string {
+	if d > 6 || seen[t] {
+		return ""
+	}
+	seen[t] = true
+	// a type with its own GobEncode decides its wire form itself
+	for _, mt := range []types.Type{t, types.NewPointer(t)} {
+		ms := types.NewMethodSet(mt)
+		for k := 0; k < ms.Len(); k++ {
+			if ms.At(k).Obj().Name() == "GobEncode" {
+				return ""
+			}
+		}
+	}
+	switch u := t.Underlying().(type) {
+	case *types.Pointer:
+		switch e := u.Elem().Underlying().(type) {
+		case *types.Basic:
+			if path != "" {
+				return path + " (" + u.String() + ")"
+			}
+		case *types.Struct:
+			if path != "" {
+				// a pointer to a struct of scalars only: an all-zero value is dropped
+				allScalar := e.NumFields() > 0
+				for k := 0; k < e.NumFields(); k++ {
+					switch e.Field(k).Type().Underlying().(type) {
+					case *types.Basic, *types.Pointer:
+					default:
+						allScalar = false
+					}
+				}
+				if allScalar {
+					return path + " (" + u.String() + ")"
+				}
+			}
+			return presencePointer(u.Elem(), seen, d+1, path)
+		}
+		return presencePointer(u.Elem(), seen, d+1, path)
+	case *types.Struct:
+		for k := 0; k < u.NumFields(); k++ {
+			if !u.Field(k).Exported() {
+				continue // gob ignores unexported fields altogether
+			}
+			fp := u.Field(k).Name()
+			if path != "" {
+				fp = path + "." + fp
+			}
+			if w := presencePointer(u.Field(k).Type(), seen, d+1, fp); w != "" {
+				return w
+			}
+		}
+	case *types.Slice:
+		return presencePointer(u.Elem(), seen, d+1, path+"[]")
+	case *types.Map:
+		return presencePointer(u.Elem(), seen, d+1, path+"[]")
+	}
+	return ""
+}
+
+// VALUE-OPTIONS — a default or an example is an instance value judged by its own schema. The swagger-only rules
+// about the *shape of a schema* (an object with `items` must say type: array; type: array requires `items`) are
+// switches of the schema-validator options read by the object validator's pre-check; they are meant for the
+// document itself. The walkers that judge defaults and examples must therefore (i) build every validator with
+// their own options field and (ii) that field must be given an options value in which each of those switches
+// is stored false. Otherwise a default such as {"x": {"items": 1}} that its schema accepts is reported.
+func ValueOptions(p *core.Prog, r *core.Report) {
+	const rule = "VALUE-OPTIONS"
+	pre := p.Func("(*objectValidator).precheck")
+	if pre == nil {
+		r.Unk(rule, "precheck", "-", "(*objectValidator).precheck not found: the schema-shape switches cannot be enumerated")
+		return
+	}
+	var optsT *types.Named
+	if o := p.Main.Pkg.Scope().Lookup("SchemaValidatorOptions"); o != nil {
+		optsT, _ = o.Type().(*types.Named)
+	}
+	if optsT == nil {
+		r.Unk(rule, "options", "-", "SchemaValidatorOptions not found")
+		return
+	}
+	ost := optsT.Underlying().(*types.Struct)
+	switches := map[int]bool{}
+	core.EachInstr(pre, func(i ssa.Instruction) {
+		fa, ok := i.(*ssa.FieldAddr)
+		if !ok {
+			return
+		}
+		if n := core.NamedOf(fa.X.Type()); n == nil || n.Obj() != optsT.Obj() {
+			return
+		}
+		if b, ok := ost.Field(fa.Field).Type().Underlying().(*types.Basic); ok && b.Kind() == types.Bool {
+			switches[fa.Field] = true
+		}
+	})
+	if len(switches) == 0 {
+		r.Unk(rule, "switches", p.Pos(pre.Pos()), "the pre-check reads no boolean option: nothing to decide")
+		return
+	}
+	var swNames []string
+	for k := range switches {
+		swNames = append(swNames, ost.Field(k).Name())
+	}
+	sort.Strings(swNames)
+	// walker types: structs holding the *SpecValidator and a field of type *SchemaValidatorOptions
+	type walker struct {
+		t      *types.Named
+		optIdx int
+	}
+	var walkers []walker
+	for _, name := range p.Main.Pkg.Scope().Names() {
+		tn, ok := p.Main.Pkg.Scope().Lookup(name).(*types.TypeName)
+		if !ok {
+			continue
+		}
+		nt, ok := tn.Type().(*types.Named)
+		if !ok {
+			continue
+		}
+		st, ok := nt.Underlying().(*types.Struct)
+		if !ok {
+			continue
+		}
+		emb, oi := false, -1
+		for k := 0; k < st.NumFields(); k++ {
+			f := st.Field(k)
+			if n := core.NamedOf(f.Type()); n != nil && n.Obj().Name() == "SpecValidator" {
+				emb = true
+			}
+			if n := core.NamedOf(f.Type()); n != nil && n.Obj() == optsT.Obj() {
+				oi = k
+			}
+		}
+		if emb && oi >= 0 {
+			walkers = append(walkers, walker{nt, oi})
+		}
+	}
+	if len(walkers) < 2 {
+		r.Unk(rule, "walkers", "-", fmt.Sprintf("expected the default and the example walker, found %d walker types", len(walkers)))
+		return
+	}
+	nUses, nStores := 0, 0
+	seq := map[string]int{}
+	for _, w := range walkers {
+		// (i) every validator constructed in the walker's methods takes the walker's own options
+		for _, f := range p.Funcs {
+			top := core.EnclosingTop(f)
+			if top.Signature.Recv() == nil {
+				continue
+			}
+			if n := core.NamedOf(top.Signature.Recv().Type()); n == nil || n.Obj() != w.t.Obj() {
+				continue
+			}
+			core.EachInstr(f, func(i ssa.Instruction) {
+				c, ok := i.(ssa.CallInstruction)
+				if !ok {
+					return
+				}
+				g := core.StaticCallee(c)
+				if g == nil || !p.InSubject(g) {
+					return
+				}
+				for k, a := range c.Common().Args {
+					if n := core.NamedOf(a.Type()); n == nil || n.Obj() != optsT.Obj() {
+						continue
+					}
+					_ = k
+					nUses++
+					base := core.FuncName(top) + ":" + g.Name() + ":options"
+					seq[base]++
+					key := base
+					if seq[base] > 1 {
+						key = fmt.Sprintf("%s#%d", base, seq[base])
+					}
+					own := false
+					if ld, ok := a.(*ssa.UnOp); ok && ld.Op == token.MUL {
+						if fa, ok := ld.X.(*ssa.FieldAddr); ok && fa.Field == w.optIdx {
+							if n := core.NamedOf(fa.X.Type()); n != nil && n.Obj() == w.t.Obj() {
+								own = true
+							}
+						}
+					}
+					if own {
+						r.OK(rule, key, p.Pos(c.Pos()), "built with the walker's own options")
+					} else {
+						r.Bad(rule, key, p.Pos(c.Pos()), fmt.Sprintf("a validator that judges a default/example value is built with options other than the walker's own (%s): the swagger schema-shape rules (%s) are then applied to an instance value, and a value its schema accepts is reported", describe(a), strings.Join(swNames, ", ")))
+					}
+				}
+			})
+		}
+		// (ii) what the walker's options field is given
+		for _, f := range p.Funcs {
+			core.EachInstr(f, func(i ssa.Instruction) {
+				st, ok := i.(*ssa.Store)
+				if !ok {
+					return
+				}
+				fa, ok := st.Addr.(*ssa.FieldAddr)
+				if !ok || fa.Field != w.optIdx {
+					return
+				}
+				if n := core.NamedOf(fa.X.Type()); n == nil || n.Obj() != w.t.Obj() {
+					return
+				}
+				nStores++
+				key := core.FuncName(core.EnclosingTop(f)) + ":" + w.t.Obj().Name() + ".options"
+				al, isAl := st.Val.(*ssa.Alloc)
+				if !isAl {
+					r.Bad(rule, key, p.Pos(st.Pos()), fmt.Sprintf("the %s is given %s as its options: not a private options value with the schema-shape switches (%s) turned off, so defaults/examples are judged with rules meant for the document's own schemas", w.t.Obj().Name(), describe(st.Val), strings.Join(swNames, ", ")))
+					return
+				}
+				var missing []string
+				for k := range switches {
+					off := false
+					for _, ref := range core.Refs(al) {
+						sfa, ok := ref.(*ssa.FieldAddr)
+						if !ok || sfa.Field != k {
+							continue
+						}
+						for _, r2 := range core.Refs(sfa) {
+							if s2, ok := r2.(*ssa.Store); ok && s2.Addr == ssa.Value(sfa) {
+								if c, ok := s2.Val.(*ssa.Const); ok && c.Value != nil && c.Value.ExactString() == "false" && core.InstrDominates(s2, st) {
+									off = true
+								} else {
+									off = false
+								}
+							}
+						}
+					}
+					if !off {
+						missing = append(missing, ost.Field(k).Name())
+					}
+				}
+				sort.Strings(missing)
+				if len(missing) > 0 {
+					r.Bad(rule, key, p.Pos(st.Pos()), "the options given to the "+w.t.Obj().Name()+" leave "+strings.Join(missing, ", ")+" on: a default/example value containing an `items` or `type` member is judged by the swagger rules for schemas and reported although its schema accepts it")
+				} else {
+					r.OK(rule, key, p.Pos(st.Pos()), "private options value with "+strings.Join(swNames, ", ")+" stored false before it is handed to the walker")
+				}
+			})
+		}
+	}
+	r.Count("value_validator_options", nUses)
+	r.Count("walker_option_stores", nStores)
+	r.Floor("value_validator_options", 8)
+	r.Floor("walker_option_stores", 2)
+}
